@@ -59,6 +59,9 @@ def expand(item, seed):
                 for h2 in HOSTS:
                     yield {"steps": [{"host": h1, "set": [["a", "1"]], "domain": d, "cookie": None},
                                      {"host": h2, "set": [], "domain": None, "cookie": None}], "seed": 1}
+                    if h1.lower() != h2.lower() and (len(h1) + len(h2)) % 4 == 0:
+                        yield {"steps": [{"host": h1, "set": [["a", "1"]], "domain": d, "cookie": None, "redirect_to": h2},
+                                         {"host": h2, "set": [], "domain": None, "cookie": None}], "seed": 1}
     else:
         for i in range(item["start"], item["start"] + item["count"]):
             yield gen(random.Random(derive_seed(seed, ID, i)))
@@ -82,6 +85,9 @@ def gen(rng):
                 if nm not in [x[0] for x in st["set"]]:
                     st["set"].append([nm, rng.choice(VALUES)])
             st["domain"] = d
+        if rng.random() < 0.2:
+            # this step's server answers with a redirect (its own Set-Cookie lines ride on the 3xx) to another host
+            st["redirect_to"] = rng.choice([h for h in HOSTS if h.lower() != host.lower()])
         steps.append(st)
     return {"steps": steps, "seed": rng.randrange(1 << 30)}
 
@@ -96,6 +102,8 @@ def run(sc, choices=None):
         for st in steps:
             if st["host"] not in HOSTS:
                 raise InvalidScenario("host")
+            if st.get("redirect_to") is not None and (st["redirect_to"] not in HOSTS or st["redirect_to"].lower() == st["host"].lower()):
+                raise InvalidScenario("redirect_to")
             if st.get("domain") is not None and st["domain"] not in DOMAINS:
                 raise InvalidScenario("domain")
             names = [x[0] for x in st.get("set", ())]
@@ -114,8 +122,15 @@ def run(sc, choices=None):
     peers = []
     step_idx = [0]
 
+    hops = [0]
+
     def fac(conn):
         st = steps[step_idx[0]]
+        hops[0] += 1
+        if st.get("redirect_to") and hops[0] == 2:
+            p = WSPeer(w, {})  # the redirect target: plain 101, no cookies of its own
+            peers.append(p)
+            return p
         extra = []
         for nm, val in st.get("set", ()):
             line = f"{nm}={val}"
@@ -123,7 +138,11 @@ def run(sc, choices=None):
                 line += f"; Domain={st['domain']}"
             line += "; Path=/"
             extra.append(("Set-Cookie", line))
-        p = WSPeer(w, {"response": {"mode": "std", "extra": extra}})
+        if st.get("redirect_to"):
+            p = WSPeer(w, {"response": {"mode": "custom", "status": 302, "reason": "Found", "then": "eof",
+                                        "headers": [["Location", f"ws://{st['redirect_to']}/"]] + [list(x) for x in extra]}})
+        else:
+            p = WSPeer(w, {"response": {"mode": "std", "extra": extra}})
         peers.append(p)
         return p
 
@@ -137,6 +156,7 @@ def run(sc, choices=None):
         ws = w.ws
         for i, st in enumerate(steps):
             step_idx[0] = i
+            hops[0] = 0
             try:
                 kw = {}
                 if st.get("cookie"):
@@ -153,11 +173,22 @@ def run(sc, choices=None):
     jar = {}  # canonical domain -> {name: value}
     sig = []
     stored_any = False
+    # one request per step, two for a redirecting step: (step index, host asked, peer, stores cookies afterwards?)
+    reqs = []
+    pi = 0
     for i, st in enumerate(steps):
-        if i >= len(outcomes) or outcomes[i] != "ok" or i >= len(peers):
+        if i >= len(outcomes) or outcomes[i] != "ok":
             res.violate("connect_failed_against_correct_server", "history", f"step {i}: {outcomes[i] if i < len(outcomes) else 'missing'}")
             break
-        host = st["host"]
+        n = 2 if st.get("redirect_to") else 1
+        if pi + n > len(peers):
+            res.violate("connect_failed_against_correct_server", "history", f"step {i}: expected {n} requests, server side saw {len(peers) - pi}")
+            break
+        reqs.append((i, st, st["host"], peers[pi], True))
+        if n == 2:
+            reqs.append((i, st, st["redirect_to"], peers[pi + 1], False))
+        pi += n
+    for (i, st, host, peer_, stores) in ([] if res.violations else reqs):
         applicable = {}
         rel = "outside"
         for d, cookies in jar.items():
@@ -171,7 +202,7 @@ def run(sc, choices=None):
         if st.get("cookie"):
             parts.append(st["cookie"])
         want = "; ".join(parts) if parts else None
-        got = R.header_values(peers[i].request, "Cookie") if peers[i].request else ["<no request>"]
+        got = R.header_values(peer_.request, "Cookie") if peer_.request else ["<no request>"]
         gotv = got[0] if got else None
         if len(got) > 1 or gotv != want:
             leaked = [k for k in _names(gotv) if k not in applicable and k not in _names(st.get("cookie"))]
@@ -185,8 +216,10 @@ def run(sc, choices=None):
             res.violate(clause, cctx, f"step {i} to {host}: Cookie header {got}, expected {want!r}; history "
                         f"{[(s['host'], s.get('domain'), s.get('set')) for s in steps[:i]]}")
             break
-        sig.append((_dform(st.get("domain")), len(st.get("set", ())), rel, bool(st.get("cookie"))))
-        if st.get("domain") is not None and st.get("set"):
+        sig.append((_dform(st.get("domain")), len(st.get("set", ())), rel, bool(st.get("cookie")), bool(st.get("redirect_to")) and stores))
+        if stores and st.get("redirect_to"):
+            res.probes["set_cookie_on_redirect"] = 1
+        if stores and st.get("domain") is not None and st.get("set"):
             jar.setdefault(canon(st["domain"]), {}).update({k: v for k, v in st["set"]})
             stored_any = True
     res.sig = repr(sig)
